@@ -729,7 +729,23 @@ pub fn c11_replay(case: &Value) -> Result<String, String> {
     let new = parse_seq(case, "new")?;
     match c11_pair(alg, &old, &new) {
         Exact::Ok(o) => Ok(format!("holds; fingerprint {:x}", o.fp)),
-        Exact::Kf1(e) => Err(format!("{} (explained by the compaction swap site, KF1)", e)),
+        Exact::Kf1(e) => kf1_or_violation("C11", e),
         Exact::Fail(e) => Err(e),
+    }
+}
+
+/// replaying a case that the listed known finding KF1 explains is not a violation
+pub fn kf1_or_violation(prop: &str, e: String) -> Result<String, String> {
+    let dir = std::env::var("VERIF_DIR").unwrap_or_else(|_| "/verif".to_string());
+    let kf = KnownFindings::load(&dir);
+    if kf.listed(prop, "KF1") {
+        Ok(format!(
+            "fails, explained by the listed known finding\nKNOWN-FINDING: property={} {} [KF1] ({})",
+            prop,
+            kf.what("KF1"),
+            e
+        ))
+    } else {
+        Err(format!("{} (goes through the compaction swap site, but KF1 is not listed for {})", e, prop))
     }
 }
